@@ -15,7 +15,10 @@ use crate::{
 
 use super::{Forward, IncomingMeter, OutgoingMeter};
 
+#[cfg(not(rumqtt_verif_small))]
 const MAX_INFLIGHT: usize = 100;
+#[cfg(rumqtt_verif_small)]
+const MAX_INFLIGHT: usize = 3;
 const MAX_PKID: u16 = MAX_INFLIGHT as u16;
 
 #[derive(Debug)]
@@ -303,4 +306,25 @@ mod test {
     //         assert_eq!(outoforder, false);
     //     }
     // }
+}
+
+#[cfg(rumqtt_verif)]
+pub const VERIF_MAX_INFLIGHT: usize = MAX_INFLIGHT;
+
+#[cfg(rumqtt_verif)]
+impl Outgoing {
+    pub fn verif_snapshot(&self) -> serde_json::Value {
+        let inflight: Vec<_> = self
+            .inflight_buffer
+            .iter()
+            .map(|(pkid, idx, cursor)| serde_json::json!([pkid, idx, cursor.map(|c| [c.0, c.1])]))
+            .collect();
+        serde_json::json!({
+            "inflight": inflight,
+            "last_pkid": self.last_pkid,
+            "pubrels": self.unacked_pubrels.iter().collect::<Vec<_>>(),
+            "obuf": self.data_buffer.lock().len(),
+            "tokens": self.handle.len(),
+        })
+    }
 }
